@@ -188,8 +188,8 @@ static void exhaustiveCase(uint64_t idx, CaseResult &r) {
 
 int main(int argc, char **argv) {
   std::vector<vf::Part> parts;
-  parts.push_back({"c15.random", [](uint64_t, Rng &rng, CaseResult &r) { randomCase(rng, r); }, 60});
-  parts.push_back({"c15.computeRows", [](uint64_t, Rng &rng, CaseResult &r) { computeRowsCase(rng, r); }, 60});
-  parts.push_back({"c15.exhaustive", [](uint64_t idx, Rng &, CaseResult &r) { exhaustiveCase(idx, r); }, 600});
+  parts.push_back({"c15.random", [](uint64_t, Rng &rng, CaseResult &r) { randomCase(rng, r); }, 10});
+  parts.push_back({"c15.computeRows", [](uint64_t, Rng &rng, CaseResult &r) { computeRowsCase(rng, r); }, 10});
+  parts.push_back({"c15.exhaustive", [](uint64_t idx, Rng &, CaseResult &r) { exhaustiveCase(idx, r); }, 120});
   return vf::runMain(argc, argv, parts);
 }
